@@ -64,6 +64,15 @@ func TakeSkipSub() int {
 	return n
 }
 
+// TouchProgress tells the hang watchdog that this process is alive (used
+// between the executions of the shrinker, which announces no traces).
+func TouchProgress() {
+	if progressPath != "" {
+		now := time.Now()
+		_ = os.Chtimes(progressPath, now, now)
+	}
+}
+
 func writeProgress(f *trace.Fault) {
 	if progressPath == "" {
 		return
